@@ -91,12 +91,12 @@ def main(argv=None) -> int:
     details = [d for r in results for d in r.fail_details]
 
     if args.dump_fail_keys:
-        json.dump(sorted(set(k for k, _ in fail_keys)), open(args.dump_fail_keys, "w"))
+        json.dump(sorted(set(map(tuple, fail_keys))), open(args.dump_fail_keys, "w"))
 
     # ---- attribution
     known_hits: dict[str, int] = {}
     unknown_keys = []
-    for k, clause in fail_keys:
+    for k, clause, _fam in fail_keys:
         if k in key2f:
             known_hits[key2f[k]] = known_hits.get(key2f[k], 0) + 1
         else:
@@ -137,8 +137,8 @@ def main(argv=None) -> int:
         "exhaustive": bool(getattr(mod, "EXHAUSTIVE", True)),
         "shards": len(shards),
         "counters": counters,
-        "failing_inputs_total": len(set(k for k, _ in fail_keys)),
-        "failing_inputs_listed_as_known": len(set(k for k, _ in fail_keys)) - n_unknown,
+        "failing_inputs_total": len(set(k for k, _c, _f in fail_keys)),
+        "failing_inputs_listed_as_known": len(set(k for k, _c, _f in fail_keys)) - n_unknown,
         "bounds": mod.bounds(args.tier) if hasattr(mod, "bounds") else {},
     }
     if hasattr(mod, "coverage_extra"):
